@@ -310,6 +310,7 @@ func checkAssemblerOrder(c *core.Ctx, pkg, rp string) {
 		r10 := c.Rule(rp+".10", "T", "a list built together with the byte count of its elements is never emptied without zeroing the count")
 		checkCoupledAccumulators(c, r10, pkg)
 	}
+	popKeepsLast(c, c.Rule(rp+".17", "T", "a function that pops the queue head clears the tail pointer when the queue empties"), pkg)
 	checkTailAdvance(c, c.Rule(rp+".16", "T", "a list built from (first,last) runs advances its tail to the run's last page"), pkg)
 	r11 := c.Rule(rp+".11", "T", "page queue links are stored in pairs: x.next = y together with y.prev = x")
 	checkPairedLinks(c, r11, pkg)
